@@ -172,6 +172,7 @@ func (sdc *signingDoneCheck) waitUntilAllDone(ctx context.Context) (
 			return nil, 0, errWaitDoneTimedOut
 
 		case <-ticker.C:
+			sdc.doneSignersMutex.Lock()
 			if sdc.expectedSignersCount == len(sdc.doneSigners) {
 				var signature *tecdsa.Signature
 				var latestEndBlock uint64
@@ -181,6 +182,7 @@ func (sdc *signingDoneCheck) waitUntilAllDone(ctx context.Context) (
 						signature = doneMessage.signature
 					} else {
 						if !signature.Equals(doneMessage.signature) {
+							sdc.doneSignersMutex.Unlock()
 							return nil, 0, fmt.Errorf(
 								"not matching signatures detected: [%v] and [%v]",
 								signature,
@@ -194,8 +196,10 @@ func (sdc *signingDoneCheck) waitUntilAllDone(ctx context.Context) (
 					}
 				}
 
+				sdc.doneSignersMutex.Unlock()
 				return &signing.Result{Signature: signature}, latestEndBlock, nil
 			}
+			sdc.doneSignersMutex.Unlock()
 		}
 	}
 }
